@@ -180,6 +180,49 @@ func checkC24(r *Run) {
 				r.Check("C24-R1", fnName+": no error return after the write to "+t, r.P.Pos(in.Pos()), bad == "", "the operation can still fail at "+bad+" after this write: a rejected event leaves the entry behind")
 			}
 		}
+		// writes made by a single-use helper count as writes at its call site
+		for _, h := range r.P.singleUseCallees(wf, 2) {
+			site, caller := r.P.onlyCallSite(h)
+			if site == nil || caller != wf {
+				continue
+			}
+			hf := r.P.Facts(h)
+			for _, hb := range h.Blocks {
+				for _, in := range hb.Instrs {
+					var m ssa.Value
+					switch x := in.(type) {
+					case *ssa.MapUpdate:
+						m = x.Map
+					case *ssa.Call:
+						if calleeName(&x.Call) == "delete" {
+							m = x.Call.Args[0]
+						}
+					}
+					if m == nil {
+						continue
+					}
+					t := hf.Term(m)
+					own := false
+					for _, name := range maps {
+						if t == "$0."+name || name == "mirrors" && strings.Contains(t, "$0.mirrors") {
+							own = true
+						}
+					}
+					if !own {
+						continue
+					}
+					nW++
+					reach := wff.reachFrom(site.Block(), nil)
+					bad := ""
+					for rb := range rejectBlocks {
+						if reach[rb] && rb != site.Block() {
+							bad = r.P.Pos(rb.Instrs[len(rb.Instrs)-1].Pos())
+						}
+					}
+					r.Check("C24-R1", fnName+": no error return after the write to "+t+" (in "+FnName(h)+")", r.P.Pos(in.Pos()), bad == "", "the operation can still fail at "+bad+" after this write")
+				}
+			}
+		}
 		if fnName != "daemon.Connections.updateMirror" {
 			r.Check("C24-R1", fnName+": bookkeeping writes found", "", nW >= 1, "")
 		}
